@@ -697,6 +697,12 @@ func (sel *Selection) Set(v val.Value) error {
 		Meta:  m,
 	}
 	if v != nil && sel.parent != nil {
+		if _, isCaseMember := m.Parent().(*meta.ChoiceCase); isCaseMember {
+			// a value that is going to be refused does not get to clear the other case
+			if proceed, err := sel.Constraints.CheckFieldPreConstraints(&r, &ValueHandle{Val: v}); !proceed || err != nil {
+				return err
+			}
+		}
 		// one case of a choice holds data, like on any other edit what
 		// another case holds goes first
 		if err := (editor{}).clearOnDifferentChoiceCase(sel.parent, m); err != nil {
